@@ -1023,4 +1023,217 @@ theorem conv_exec {snap init} (ls : List Label) {s s' : Sys}
       exact ih (atomInv_step ha h1) (snapInv_step ha hsn h1) (mutex_step hm h1)
         (conv_step ha hsn hm h (hq l (by simp)) h1) (fun l' hl' => hq l' (by simp [hl'])) hs
     · cases hs
+
+/-! ### convergence without `state.lock` (persist lock only, quiet labels): the last change's own job
+    reads after it, whatever was read in between -/
+
+/-- the job has not begun to read the state -/
+def Pc.early : Pc → Bool
+  | .start => true
+  | .mktemp => true
+  | .snapshot => true
+  | _ => false
+
+/-- what the job has read so far, or carries, agrees with the present memory -/
+def Pc.good (mem : Vec) : Pc → Prop
+  | .reading got => got = mem.take got.length
+  | pc => pc.carries = some mem
+
+/-- the job is neither reading nor carrying a snapshot -/
+def Pc.idle : Pc → Bool
+  | .reading _ => false
+  | .write _ _ => false
+  | .closing _ => false
+  | .replace _ => false
+  | _ => true
+
+theorem Pc.inCS_of_not_idle {pc : Pc} (h : pc.idle = false) : pc.inCS = true := by
+  cases pc <;> simp_all [Pc.idle, Pc.inCS]
+
+def ConvU (snap : Vec → Content) (s : Sys) : Prop :=
+  (∀ j, s.jobs j = .unspawned) ∨ s.chg = true ∨ (∃ j, (s.jobs j).early = true) ∨
+  (∃ j, (s.jobs j).good s.mem) ∨ (s.target = some (snap s.mem) ∧ ∀ j, (s.jobs j).idle = true)
+
+theorem convU_init (snap : Vec → Content) (init : Option Content) (mem0 : Vec) :
+    ConvU snap (initSys init mem0) :=
+  Or.inl fun _ => rfl
+
+theorem convU_spawn {snap} {s : Sys} : ConvU snap (spawn s) := by
+  refine Or.inr (Or.inr (Or.inl ⟨s.njobs, ?_⟩))
+  simp [spawn, Pc.early]
+
+/-- frame lemma: job `j` moves from a spawned pc to `pc'`; memory, `chg` and the target are unchanged -/
+theorem convU_update {snap} {s s' : Sys} {j : Nat} {pc' : Pc}
+    (h : ConvU snap s) (hm : s'.mem = s.mem) (hc : s'.chg = s.chg) (ht : s'.target = s.target)
+    (hjobs : s'.jobs = fun i => if i = j then pc' else s.jobs i)
+    (hsp : s.jobs j ≠ .unspawned)
+    (hearly : (s.jobs j).early = true → pc'.early = true ∨ pc'.good s.mem)
+    (hgood : (s.jobs j).good s.mem → pc'.good s.mem)
+    (hidle : (s.jobs j).idle = true → pc'.idle = true ∨ pc'.early = true ∨ pc'.good s.mem) :
+    ConvU snap s' := by
+  have hj' : s'.jobs j = pc' := by simp [hjobs]
+  have hi' : ∀ i, i ≠ j → s'.jobs i = s.jobs i := by intro i hi; simp [hjobs, hi]
+  unfold ConvU
+  rw [hm, hc, ht]
+  rcases h with h | h | ⟨i, h⟩ | ⟨i, h⟩ | ⟨h1, h2⟩
+  · exact absurd (h j) hsp
+  · exact Or.inr (Or.inl h)
+  · by_cases e : i = j
+    · subst e
+      rcases hearly h with p | p
+      · exact Or.inr (Or.inr (Or.inl ⟨i, by rw [hj']; exact p⟩))
+      · exact Or.inr (Or.inr (Or.inr (Or.inl ⟨i, by rw [hj']; exact p⟩)))
+    · exact Or.inr (Or.inr (Or.inl ⟨i, by rw [hi' i e]; exact h⟩))
+  · by_cases e : i = j
+    · subst e
+      exact Or.inr (Or.inr (Or.inr (Or.inl ⟨i, by rw [hj']; exact hgood h⟩)))
+    · exact Or.inr (Or.inr (Or.inr (Or.inl ⟨i, by rw [hi' i e]; exact h⟩)))
+  · rcases hidle (h2 j) with p | p | p
+    · refine Or.inr (Or.inr (Or.inr (Or.inr ⟨h1, ?_⟩)))
+      intro i
+      by_cases e : i = j
+      · subst e; rw [hj']; exact p
+      · rw [hi' i e]; exact h2 i
+    · exact Or.inr (Or.inr (Or.inl ⟨j, by rw [hj']; exact p⟩))
+    · exact Or.inr (Or.inr (Or.inr (Or.inl ⟨j, by rw [hj']; exact p⟩)))
+
+theorem convU_adv {snap init} {s s' : Sys} {j : Nat}
+    (ha : AtomInv snap init s) (hm : Mutex s) (h : ConvU snap s)
+    (hs : adv true false snap s j = some s') : ConvU snap s' := by
+  have hj := ha.jobs j
+  unfold JobOk at hj
+  unfold adv at hs
+  split at hs
+  · cases hs
+  · -- start: acquire
+    next hpc =>
+    split at hs
+    · split at hs
+      · injection hs with hs; subst hs
+        exact convU_update (j := j) (pc' := .mktemp) h rfl rfl rfl rfl (by simp [hpc])
+          (by simp [Pc.early]) (by simp [hpc, Pc.good, Pc.carries]) (by simp [Pc.early])
+      · cases hs
+    · contradiction
+  · next hpc =>
+    injection hs with hs; subst hs
+    exact convU_update (j := j) (pc' := .snapshot) h rfl rfl rfl rfl (by simp [hpc])
+      (by simp [Pc.early]) (by simp [hpc, Pc.good, Pc.carries]) (by simp [Pc.early])
+  · -- snapshot: no state.lock to take; the job has read nothing yet
+    next hpc =>
+    simp only [Bool.false_eq_true, if_false] at hs
+    injection hs with hs; subst hs
+    exact convU_update (j := j) (pc' := .reading []) h rfl rfl rfl rfl (by simp [hpc])
+      (by simp [Pc.good]) (by simp [hpc, Pc.good, Pc.carries]) (by simp [Pc.good])
+  · -- reading
+    next got hpc =>
+    split at hs
+    · next hlt =>
+      injection hs with hs; subst hs
+      refine convU_update (j := j) (pc' := .reading _) h rfl rfl rfl rfl (by simp [hpc])
+        (by simp [hpc, Pc.early]) ?_ (by simp [hpc, Pc.idle])
+      intro hg
+      rw [hpc] at hg
+      simp only [Pc.good] at hg ⊢
+      rw [List.length_append, List.length_singleton]
+      rw [← take_snoc_getD s.mem got.length hlt, ← hg]
+    · next hlt =>
+      injection hs with hs; subst hs
+      refine convU_update (j := j) (pc' := .write got (snap got)) h rfl rfl rfl rfl (by simp [hpc])
+        (by simp [hpc, Pc.early]) ?_ (by simp [hpc, Pc.idle])
+      intro hg
+      rw [hpc] at hg
+      simp only [Pc.good] at hg
+      rw [take_full s.mem got.length hlt] at hg
+      simp [Pc.good, Pc.carries, hg]
+  · next v c rest hpc =>
+    injection hs with hs; subst hs
+    exact convU_update (j := j) (pc' := .write v rest) h rfl rfl rfl rfl (by simp [hpc])
+      (by simp [hpc, Pc.early]) (by simp [hpc, Pc.good, Pc.carries]) (by simp [hpc, Pc.idle])
+  · next v hpc =>
+    simp only [Bool.false_eq_true, if_false] at hs
+    injection hs with hs; subst hs
+    exact convU_update (j := j) (pc' := .closing v) h rfl rfl rfl rfl (by simp [hpc])
+      (by simp [hpc, Pc.early]) (by simp [hpc, Pc.good, Pc.carries]) (by simp [hpc, Pc.idle])
+  · next v hpc =>
+    injection hs with hs; subst hs
+    exact convU_update (j := j) (pc' := .replace v) h rfl rfl rfl rfl (by simp [hpc])
+      (by simp [hpc, Pc.early]) (by simp [hpc, Pc.good, Pc.carries]) (by simp [hpc, Pc.idle])
+  · -- replace: the only step that changes the target
+    next v hpc =>
+    injection hs with hs; subst hs
+    rw [hpc] at hj
+    have hcs : (s.jobs j).inCS = true := by simp [hpc, Pc.inCS]
+    have others : ∀ i, i ≠ j → (s.jobs i).idle = true := by
+      intro i hi
+      cases hc : (s.jobs i).idle with
+      | true => rfl
+      | false => exact absurd (mutex_unique hm (Pc.inCS_of_not_idle hc) hcs) hi
+    unfold ConvU
+    rcases h with h | h | ⟨i, h⟩ | ⟨i, h⟩ | ⟨_, h2⟩
+    · exact absurd (h j) (by simp [hpc])
+    · exact Or.inr (Or.inl h)
+    · have e : i ≠ j := by intro e; subst e; simp [hpc, Pc.early] at h
+      exact Or.inr (Or.inr (Or.inl ⟨i, by simp [setJob, setTemp, e]; exact h⟩))
+    · by_cases e : i = j
+      · subst e
+        rw [hpc] at h
+        simp only [Pc.good, Pc.carries, Option.some.injEq] at h
+        subst h
+        refine Or.inr (Or.inr (Or.inr (Or.inr ⟨by simp [setJob, setTemp, hj], ?_⟩)))
+        intro k
+        by_cases e : k = i
+        · subst e; simp [setJob, Pc.idle]
+        · simp [setJob, setTemp, e]; exact others k e
+      · exact Or.inr (Or.inr (Or.inr (Or.inl ⟨i, by simp [setJob, setTemp, e]; exact h⟩)))
+    · have := h2 j
+      simp [hpc, Pc.idle] at this
+  · -- cleanup
+    next r hpc =>
+    split at hs
+    · injection hs with hs; subst hs
+      exact convU_update (j := j) (pc' := .remove r) h rfl rfl rfl rfl (by simp [hpc])
+        (by simp [hpc, Pc.early]) (by simp [hpc, Pc.good, Pc.carries]) (by simp [Pc.idle])
+    · injection hs with hs; subst hs
+      exact convU_update (j := j) (pc' := .unlock (resOf r)) h rfl rfl rfl rfl (by simp [hpc])
+        (by simp [hpc, Pc.early]) (by simp [hpc, Pc.good, Pc.carries]) (by simp [Pc.idle])
+  · next r hpc =>
+    injection hs with hs; subst hs
+    exact convU_update (j := j) (pc' := .unlock (resOf r)) h rfl rfl rfl rfl (by simp [hpc])
+      (by simp [hpc, Pc.early]) (by simp [hpc, Pc.good, Pc.carries]) (by simp [Pc.idle])
+  · next r hpc =>
+    injection hs with hs; subst hs
+    exact convU_update (j := j) (pc' := .done r) h rfl rfl rfl rfl (by simp [hpc])
+      (by simp [hpc, Pc.early]) (by simp [hpc, Pc.good, Pc.carries]) (by simp [Pc.idle])
+  · cases hs
+
+theorem convU_step {snap init} {s s' : Sys} {l : Label}
+    (ha : AtomInv snap init s) (hm : Mutex s) (h : ConvU snap s)
+    (hq : l.quiet = true) (hs : step true false snap s l = some s') : ConvU snap s' := by
+  obtain ⟨_, hc⟩ := step_cases hs
+  rcases hc with ⟨_, _, _, e⟩ | ⟨c, _, hch, e⟩ | ⟨b, hl, _, e⟩ | ⟨_, e⟩ | ⟨j, _, e⟩ | ⟨j, hl, e⟩ |
+    ⟨hl, e⟩
+  · subst e; exact Or.inr (Or.inl rfl)
+  · subst e; exact Or.inr (Or.inl hch)
+  · subst e
+    cases b
+    · subst hl; simp [Label.quiet] at hq
+    · exact convU_spawn
+  · subst e; exact convU_spawn
+  · exact convU_adv ha hm h e
+  · subst hl; simp [Label.quiet] at hq
+  · subst hl; simp [Label.quiet] at hq
+
+theorem convU_exec {snap init} (ls : List Label) {s s' : Sys}
+    (ha : AtomInv snap init s) (hm : Mutex s) (h : ConvU snap s)
+    (hq : ∀ l ∈ ls, l.quiet = true)
+    (hs : exec true false snap ls s = some s') : ConvU snap s' := by
+  induction ls generalizing s with
+  | nil => simp [exec] at hs; subst hs; exact h
+  | cons l ls ih =>
+    simp only [exec] at hs
+    split at hs
+    · next s1 h1 =>
+      exact ih (atomInv_step ha h1) (mutex_step hm h1)
+        (convU_step ha hm h (hq l (by simp)) h1) (fun l' hl' => hq l' (by simp [hl'])) hs
+    · cases hs
 end Hap.Persist
